@@ -41,6 +41,7 @@ func main() {
 	first := fixedScenarios(f)
 	first = append(first, schedScenarios(f)...)
 	first = append(first, raceScenarios(f)...)
+	first = append(first, adapterScenarios(boundMs(f))...)
 	first = append(first, pipeScenarios(f)...)
 	outs := runAll(f, first, f.N(4, 8))
 	points := map[string]int{}
@@ -196,6 +197,8 @@ func worker(f lib.Flags) {
 				}
 			case "race":
 				o = runRace(req.Sc)
+			case "adapter":
+				o = runAdapter(req.Sc)
 			default:
 				o = runStress(req.Sc)
 			}
@@ -338,7 +341,7 @@ func replay(f lib.Flags) int {
 	}
 	b, _ := json.Marshal(rp.Input)
 	var sc Scenario
-	if rp.Input == nil || json.Unmarshal(b, &sc) != nil || sc.Res == "" && sc.Sched == nil && sc.Race == nil && sc.Pipe == nil {
+	if rp.Input == nil || json.Unmarshal(b, &sc) != nil || sc.Res == "" && sc.Sched == nil && sc.Race == nil && sc.Pipe == nil && sc.Adapter == nil {
 		fmt.Println("replay: no concrete input in file (", rp.Kind, rp.Broken, ")")
 		return 2
 	}
